@@ -53,7 +53,9 @@ macro_rules! alloc_step {
             let order: u8 = $order;
             let cb: u32 = kani::any();
             kani::assume(cb >= $cblo && cb <= $cbhi);
-            let info = mk_info(cb, order as u32, 1u64 << 40, 9, Some((9, 1024)), Some((9, 1024)), false, false, false);
+            // refcount slices 512 B; L2 slices deliberately of another size where the cluster size allows
+            let l2c = if $cblo >= 10 { Some((10u8, 2048usize)) } else { Some((9u8, 1024usize)) };
+            let info = mk_info(cb, order as u32, 1u64 << 40, 9, l2c, Some((9, 1024)), false, false, false);
             let mut env = KEnv::new(info);
             let nf0: bool = kani::any();
             env.mark_need_flush(nf0);
@@ -185,7 +187,9 @@ macro_rules! free_step {
             let order: u8 = $order;
             let cb: u32 = kani::any();
             kani::assume(cb >= $cblo && cb <= $cbhi);
-            let info = mk_info(cb, order as u32, 1u64 << 40, 9, Some((9, 1024)), Some((9, 1024)), false, false, false);
+            // refcount slices 512 B; L2 slices deliberately of another size where the cluster size allows
+            let l2c = if $cblo >= 10 { Some((10u8, 2048usize)) } else { Some((9u8, 1024usize)) };
+            let info = mk_info(cb, order as u32, 1u64 << 40, 9, l2c, Some((9, 1024)), false, false, false);
             let mut env = KEnv::new(info);
             let nf0: bool = kani::any();
             env.mark_need_flush(nf0);
